@@ -151,6 +151,60 @@ example :
     let s := run {} [.start 0 .init, .start 1 .init, .poll 0 0 .pend, .poll 1 4 .pend, .poll 0 0 .panic]
     s.state = 0 ∧ s.woken = [1] ∧ (step s (.poll 1 4 .ok)).2 = .readyVal 1 := by decide
 
+/-! ### Blocking forms: a parked thread is a re-polled task
+
+`get_or_init_blocking`, `get_or_try_init_blocking` and `set_blocking` drive the same
+`initialize_or_wait` with the `Blocking` strategy, `wait_blocking` has its own four lines.  A parked
+thread resumes *after* `strategy.wait(listener)` / `listener.wait()` has returned — its listener has
+fired and been consumed — and not at the top of a poll.  `resumeInitBlocking` and
+`resumeWaitBlocking` are those code paths, written from the source; the two theorems prove that
+they change the cell exactly as the poll of the corresponding notified future does, so the theorems
+about histories of polls (C04, C08, C10, C17) also cover threads parked in the blocking forms.
+(The blocking initialiser is a plain closure: its input is never `.pend`.) -/
+
+/-- a thread parked in `initialize_or_wait` (blocking strategy) resumes: `loop { load; match … }` -/
+def resumeInitBlocking (s : Sys) (fu : Fut) (t : Nat) (i : Input) : PRes :=
+  let f := fu.id
+  -- `strategy.wait(listener)` returned: the entry is gone from the list
+  let s1 := { s with act := Ev.erase s.act f }
+  -- next iteration: `state.load(Acquire)`
+  if s.state = 2 then ⟨s1, .done, report fu.kind (valBy s) false⟩     -- Initialized: return Ok(())
+  else if s.state = 1 then
+    -- Initializing, no listener in hand: listen; next iteration (still Initializing): park on it
+    ⟨{ s1 with act := Ev.setTask (Ev.listen s1.act f) f t }, .waiting, .pending⟩
+  else
+    -- Uninitialized: the CAS 0 -> 1 succeeds (nothing runs in between), the closure runs
+    runInit { s1 with state := 1 } fu i
+
+/-- a thread parked in `wait_blocking` resumes: `listener.wait()` returned; `get_unchecked()` -/
+def resumeWaitBlocking (s : Sys) (fu : Fut) : PRes :=
+  ⟨{ s with pas := Ev.erase s.pas fu.id }, .done, .readyVal (valBy s)⟩
+
+/-- **C08 (blocking initialising forms are covered).** -/
+theorem C08_blocking_init_is_poll (s : Sys) (fu : Fut) (t : Nat) (i : Input)
+    (hpc : fu.pc = .waiting) (hn : Ev.isNotified s.act fu.id = true) :
+    resumeInitBlocking s fu t i = pollInit s fu t i := by
+  unfold resumeInitBlocking pollInit
+  simp only [hpc, hn, Bool.not_true, Bool.false_eq_true, if_false]
+
+/-- **C08 (`wait_blocking` is covered).** -/
+theorem C08_blocking_wait_is_poll (s : Sys) (fu : Fut) (t : Nat)
+    (hpc : fu.pc = .waiting) (hn : Ev.isNotified s.pas fu.id = true) :
+    resumeWaitBlocking s fu = pollWait s fu t := by
+  unfold resumeWaitBlocking pollWait
+  simp only [hpc, hn, Bool.not_true, Bool.false_eq_true, if_false]
+
+/-- non-vacuity: caller 0 initialising, callers 1 (init) and 2 (wait) parked; 0 fails: 1 is notified
+and its blocking resume runs its own closure; then 2 is notified and resumes with the value -/
+example :
+    let s := run {} [.start 0 .tryInit, .start 1 .init, .start 2 .wait,
+                     .poll 0 0 .pend, .poll 1 4 .pend, .poll 2 8 .pend, .poll 0 0 .err]
+    let fu1 : Fut := { id := 1, kind := .init, pc := .waiting, polled := true, waker := 4 }
+    let r := resumeInitBlocking s fu1 4 .ok
+    let fu2 : Fut := { id := 2, kind := .wait, pc := .waiting, polled := true, waker := 8 }
+    Ev.isNotified s.act 1 = true ∧ r.out = .readyVal 1 ∧ r.s.state = 2 ∧
+    Ev.isNotified r.s.pas 2 = true ∧ (resumeWaitBlocking r.s fu2).out = .readyVal 1 := by decide
+
 end ALock.Once
 
 /-! ## Where the notifications are sent (generated site table) -/
